@@ -145,3 +145,49 @@ func encCharMap(m map[uint8]int) string {
 
 func itoa(i int) string { return strconv.Itoa(i) }
 func hexs(b []byte) string { return hex.EncodeToString(b) }
+
+// ---- hex variants (C02/C03: names and residues are arbitrary bytes) ------------------------------
+
+// hexz / unhexz: a whole wire field holding a byte string; `-` is the empty string so that a
+// field is never empty.
+func hexz(b []byte) string {
+	if len(b) == 0 {
+		return "-"
+	}
+	return hex.EncodeToString(b)
+}
+
+func unhexz(s string) []byte {
+	if s == "-" || s == "" {
+		return []byte{}
+	}
+	return unhex(s)
+}
+
+// xrows: `hexname:hexseq,hexname:hexseq` (`_` = no row; an empty name or sequence is the empty string)
+func decXRows(s string) []Row {
+	if s == "_" {
+		return nil
+	}
+	parts := strings.Split(s, ",")
+	rows := make([]Row, len(parts))
+	for i, p := range parts {
+		k := strings.IndexByte(p, ':')
+		if k < 0 {
+			panic("harness: bad xrow " + p)
+		}
+		rows[i] = Row{string(unhex(p[:k])), string(unhex(p[k+1:]))}
+	}
+	return rows
+}
+
+func encXRows(rows []Row) string {
+	if len(rows) == 0 {
+		return "_"
+	}
+	parts := make([]string, len(rows))
+	for i, r := range rows {
+		parts[i] = hex.EncodeToString([]byte(r.Name)) + ":" + hex.EncodeToString([]byte(r.Seq))
+	}
+	return strings.Join(parts, ",")
+}
